@@ -2,6 +2,7 @@
 #include <morfuse/Common/MEM/Memory.h>
 
 #include <cassert>
+#include <cstddef>
 
 using namespace mfuse;
 
@@ -14,10 +15,12 @@ MEM::PreAllocator::PreAllocator(MEM::PreAllocator&& other)
     : allocatedBlock(other.allocatedBlock)
     , endBlock(other.endBlock)
     , current(other.current)
+    , overflowList(other.overflowList)
 {
     other.allocatedBlock = nullptr;
     other.endBlock = nullptr;
     other.current = nullptr;
+    other.overflowList = nullptr;
 }
 
 MEM::PreAllocator& MEM::PreAllocator::operator=(MEM::PreAllocator&& other)
@@ -25,9 +28,11 @@ MEM::PreAllocator& MEM::PreAllocator::operator=(MEM::PreAllocator&& other)
     allocatedBlock = other.allocatedBlock;
     endBlock = other.endBlock;
     current = other.current;
+    overflowList = other.overflowList;
     other.allocatedBlock = nullptr;
     other.endBlock = nullptr;
     other.current = nullptr;
+    other.overflowList = nullptr;
     return *this;
 }
 
@@ -38,7 +43,16 @@ MEM::PreAllocator::~PreAllocator()
 
 void* MEM::PreAllocator::Alloc(size_t size)
 {
-    assert(current + size <= endBlock);
+    if (!allocatedBlock || size > size_t(endBlock - current))
+    {
+        // the pre-computed budget does not cover this request: never write past the block,
+        // take the memory from the general allocator and remember it for Release()
+        constexpr size_t headerSize = sizeof(void*) > alignof(std::max_align_t) ? sizeof(void*) : alignof(std::max_align_t);
+        unsigned char* const mem = (unsigned char*)IMemoryManager::get().allocate(headerSize + size);
+        *reinterpret_cast<void**>(mem) = overflowList;
+        overflowList = mem;
+        return mem + headerSize;
+    }
 
     void* const newPtr = current;
     current += size;
@@ -62,6 +76,13 @@ void MEM::PreAllocator::Release()
     {
         IMemoryManager::get().free(allocatedBlock);
         allocatedBlock = nullptr;
+    }
+
+    while (overflowList)
+    {
+        void* const next = *reinterpret_cast<void**>(overflowList);
+        IMemoryManager::get().free(overflowList);
+        overflowList = next;
     }
 }
 
